@@ -89,7 +89,7 @@ theorem vm_arr_get (m : Module) (fr : Frame) (c : Core) (a et : Nat) (es : List 
     have h' := (idxInRange_iff idx es.length).mpr h
     have key : execData m fr ((c.push (.arr a)).push (.int idx)) st .ARR_GET []
         = some ((((c.retain (es.getD idx.toNat .void)).release (.arr a)).push (es.getD idx.toNat .void)), .running) := by
-      simp only [execData, Opc.isControl, Bool.false_eq_true, if_false, execData', pop_push, asI64, hobj, h', if_true, cont]
+      simp only [execData, Opc.isControl, Bool.false_eq_true, if_false, execData', pop_push, asIdx, hobj, h', if_true, cont]
     exact ⟨_, key, by simp [Core.push], by simp [Core.push, Core.release, Core.retain]⟩
   · intro h
     have h' : idxInRange idx es.length = false := by
@@ -98,8 +98,22 @@ theorem vm_arr_get (m : Module) (fr : Frame) (c : Core) (a et : Nat) (es : List 
       | true => exact absurd ((idxInRange_iff idx es.length).mp hb) h
     have key : execData m fr ((c.push (.arr a)).push (.int idx)) st .ARR_GET []
         = some (c.release (.arr a), .err .outOfBounds) := by
-      simp only [execData, Opc.isControl, execData', pop_push, asI64, hobj, h', Bool.false_eq_true, if_false, errS]
+      simp only [execData, Opc.isControl, execData', pop_push, asIdx, hobj, h', Bool.false_eq_true, if_false, errS]
     exact ⟨_, key, by simp [Core.release]⟩
+
+/-- the same when the index on the stack is an enum value (the type checker accepts `(at a Color.Blue)`): its
+    number is the index, and an out-of-range one stops the run -/
+theorem vm_arr_get_enum_oob (m : Module) (fr : Frame) (c : Core) (a et : Nat) (es : List Val) (v : Nat) (st : Nat)
+    (hobj : c.heap.obj? a = some (.arr et es)) (h : ¬ inRange (i64 v) es.length) :
+    ∃ c', execData m fr ((c.push (.arr a)).push (.enum v)) st .ARR_GET [] = some (c', .err .outOfBounds) ∧ c'.out = c.out := by
+  have h' : idxInRange (i64 v) es.length = false := by
+    cases hb : idxInRange (i64 v) es.length with
+    | false => rfl
+    | true => exact absurd ((idxInRange_iff (i64 v) es.length).mp hb) h
+  have key : execData m fr ((c.push (.arr a)).push (.enum v)) st .ARR_GET []
+      = some (c.release (.arr a), .err .outOfBounds) := by
+    simp only [execData, Opc.isControl, execData', pop_push, asIdx, hobj, h', Bool.false_eq_true, if_false, errS]
+  exact ⟨_, key, by simp [Core.release]⟩
 
 theorem not_inRange_false {idx : I64} {len : Nat} (h : ¬ inRange idx len) : idxInRange idx len = false := by
   cases hb : idxInRange idx len with
@@ -116,7 +130,7 @@ theorem vm_arr_set_oob (m : Module) (fr : Frame) (c : Core) (a et : Nat) (es : L
   have h' := not_inRange_false h
   have key : execData m fr (((c.push (.arr a)).push (.int idx)).push v) st .ARR_SET []
       = some ((c.release (.arr a)).release v, .err .outOfBounds) := by
-    simp only [execData, Opc.isControl, execData', pop_push, asI64, hobj, h', Bool.false_eq_true, if_false, errS]
+    simp only [execData, Opc.isControl, execData', pop_push, asIdx, hobj, h', Bool.false_eq_true, if_false, errS]
   exact ⟨_, key, rfl, rfl, rfl⟩
 
 /-- `OP_ARR_REMOVE` out of range: error, array untouched apart from the release of the operand -/
@@ -127,7 +141,7 @@ theorem vm_arr_remove_oob (m : Module) (fr : Frame) (c : Core) (a et : Nat) (es 
   have h' := not_inRange_false h
   have key : execData m fr ((c.push (.arr a)).push (.int idx)) st .ARR_REMOVE []
       = some (c.release (.arr a), .err .outOfBounds) := by
-    simp only [execData, Opc.isControl, execData', pop_push, asI64, hobj, h', Bool.false_eq_true, if_false, errS]
+    simp only [execData, Opc.isControl, execData', pop_push, asIdx, hobj, h', Bool.false_eq_true, if_false, errS]
   exact ⟨_, key, rfl, rfl, rfl⟩
 
 /-- `OP_ARR_POP` on an empty array: error, no value is produced -/
